@@ -369,13 +369,18 @@ fn walk(rep: &mut Report, seed: u64, i: u64, states: &mut HashSet<(u8, usize, us
             if rng.chance(1, 8) {
                 Val::Refuses
             } else {
-                let k = if rng.chance(1, 25) { rng.below(1500) } else { rng.below(10) };
+                let k = if i % 5 == 2 { 40 + rng.below(400) } else if rng.chance(1, 25) { rng.below(1500) } else { rng.below(10) };
                 Val::Data((0..k).map(|_| rng.next_u32() as u16).collect())
             }
         })
         .collect();
-    let rb = Bounds { pendings: 3, errors: 2, drops: 8, zeros: 2, base: 0 };
-    let ch: Choices = Rc::new(RefCell::new(Chooser::random(Rng::derive("c16/choices", seed, 1, i))));
+    // "trickle" walks: the sink takes one byte at a time by default and the walk mostly follows that
+    // policy, so a single write / sync call makes hundreds of partial transfers (with the odd
+    // Pending, error and cancellation in between)
+    let trickle = i % 5 == 2;
+    let rb = Bounds { pendings: 3, errors: 2, drops: 8, zeros: 2, base: if trickle { 1 } else { 0 } };
+    let rng2 = Rng::derive("c16/choices", seed, 1, i);
+    let ch: Choices = Rc::new(RefCell::new(if trickle { Chooser::random_biased(rng2, 97) } else { Chooser::random(rng2) }));
     ch.borrow_mut().begin_run();
     rep.eval();
     let rp = vec!["c16".into(), "--seed".into(), seed.to_string(), "--replay".into(), "walk".into(), i.to_string()];
